@@ -153,7 +153,7 @@ def run(rng, tier, model_ok):
     return {
         "evaluations": len(strings), "distinct_nontrivial": len(distinct),
         "rule": "all strings of length <= %d over a %d-symbol alphabet (digits, operators, letters, braces, multi-byte characters, "
-                "Unicode blanks) exhaustively, random longer strings over it, and random well-formed queries with random "
+                "Unicode blanks) exhaustively, random longer strings over it, every special character in ten positions, nesting to depth 300, every operator chain over + * ^ to up to five (thorough: six) operators, and random well-formed queries with random "
                 "layouts; non-trivial = distinct strings lexing to at least two tokens" % (maxlen, len(ALPHABET)),
         "samples": [strings[i] for i in (exhaustive // 2, exhaustive + 5, len(strings) - 3)],
         "mismatches": mismatches, "failures": failures,
